@@ -151,7 +151,7 @@ def quic_grid():
             for g in range(gens):
                 a = g % 2
                 steps += [{"op": "ku", "d": a}, data(a, 12 + g), {"op": "ku", "d": 1 - a}, data(1 - a, 13 + g)]
-            for dl, cl, sl in ((8, 8, 8), (20, 0, 5), (12, 20, 0), (8, 1, 20)):
+            for dl, cl, sl in ((8, 8, 8), (20, 0, 5), (12, 20, 0), (8, 1, 20), (0, 8, 8), (3, 0, 4)):
                 for early, retry in ((0, False), (1, False), (0, True)):
                     out.append({"conns": [{"kind": "quic", "seed": 700 + i, "suite": suite, "dcid_len": dl, "c_scid_len": cl, "s_scid_len": sl, "steps": steps,
                                            "early": early, "retry": retry, "ep": scenario.default_ep(i % 100)}], "tseed": 1 + i})
